@@ -13,6 +13,7 @@ import time
 import traceback
 
 ROOT = os.path.dirname(os.path.dirname(os.path.abspath(__file__)))
+OUT = os.environ.get("VERIF_OUT", ROOT)      # evidence/ and replays/ go here (seeded-change trials redirect it)
 
 TRUSTED_BASE = [
     "pyvc (this repository's VC generator: /verif/pyvc, ~3k lines) — its encoding of the Python subset",
@@ -108,13 +109,15 @@ class Report:
 
     # ---- classification ---------------------------------------------------------------------
     def _known(self, key, detail=None):
+        import fnmatch
         for k in load_known(self.prop):
-            if k.get("obligation") == key:
+            ob = k.get("obligation", "")
+            if ob == key or (("*" in ob) and fnmatch.fnmatchcase(key, ob)):
                 return k
         return None
 
     def replay_file(self, name, payload):
-        d = os.path.join(ROOT, "replays", self.prop)
+        d = os.path.join(OUT, "replays", self.prop)
         os.makedirs(d, exist_ok=True)
         safe = "".join(ch if ch.isalnum() or ch in "-_." else "_" for ch in name)[:120]
         path = os.path.join(d, safe + ".json")
@@ -129,6 +132,8 @@ class Report:
         self.e_records.extend(recs)
 
     def add_b(self, recs):
+        if isinstance(recs, dict):
+            recs = [recs]
         self.b_records.extend(recs)
 
     def finish(self, checker_cmd, functions=None, explanation=None, b_fallback_ok=True):
@@ -157,8 +162,8 @@ class Report:
                 continue
             k = self._known(key)
             if k is not None:
-                if key not in seen_known:
-                    seen_known.add(key)
+                if k["obligation"] not in seen_known:
+                    seen_known.add(k["obligation"])
                     known_matched.append(key)
                     print(f"KNOWN-FINDING: property={self.prop} {k.get('what', key)}")
                 continue
@@ -193,8 +198,8 @@ class Report:
                 key = f"{r['name']}:{fl.get('key', '')}"
                 k = self._known(key)
                 if k is not None:
-                    if key not in seen_known:
-                        seen_known.add(key)
+                    if k["obligation"] not in seen_known:
+                        seen_known.add(k["obligation"])
                         known_matched.append(key)
                         print(f"KNOWN-FINDING: property={self.prop} {k.get('what', key)}")
                     continue
@@ -206,6 +211,19 @@ class Report:
                 continue      # the mutated text is no longer in the source (the code changed): canary skipped
             if not c.get("killed"):
                 self.errors.append(("canary:" + c["name"], "a mutant that must fail was accepted: checker broken"))
+        if os.environ.get("VERIF_WRITE_LEDGER") == "1" and not self.violations and not self.errors:
+            # the committed baseline: which (function, case, clause) obligations are discharged on this tree
+            status = {}
+            for r in self.p_records + self.e_records:
+                if r["verdict"] == "meta":
+                    continue
+                kk = obligation_key(r)
+                status[kk] = "proved" if (r["verdict"] == "proved" and status.get(kk, "proved") == "proved") else "not-proved"
+            lp = os.path.join(ROOT, "ledger.json")
+            led = load_ledger()
+            led[self.prop] = {kk: v for kk, v in sorted(status.items()) if v == "proved"}
+            with open(lp, "w") as f:
+                json.dump(led, f, indent=0, sort_keys=True)
         wall = time.time() - self.t0
         cov = dict(
             obligations=obligations, discharged=discharged, checker_cmd=checker_cmd,
@@ -227,8 +245,8 @@ class Report:
         cov.update(self.extra)
         ev = dict(property_id=self.prop, tier=self.tier, seed=self.seed, level=self.level, coverage=cov,
                   assumptions=ASSUMPTIONS + self.notes, wall_s=round(wall, 2), violations=len(self.violations))
-        os.makedirs(os.path.join(ROOT, "evidence"), exist_ok=True)
-        with open(os.path.join(ROOT, "evidence", f"{self.prop}.json"), "w") as f:
+        os.makedirs(os.path.join(OUT, "evidence"), exist_ok=True)
+        with open(os.path.join(OUT, "evidence", f"{self.prop}.json"), "w") as f:
             json.dump(ev, f, indent=1, default=repr)
         for name, why in out_of_reach:
             print(f"OUT-OF-REACH function={name} construct={why[:160]}")
